@@ -15,11 +15,12 @@ open CelmaVerif CelmaVerif.Keys CelmaVerif.ProgArgs
 
 /-- Soundness of all rules together: for every well-formed configuration (keys of the table pairwise
     distinct as `addArgument` guarantees, constraint keys spell table keys, maximum cardinalities
-    not below -1; the fourth clause of `Cfg.WellFormed` is only used by the converse, C03), all
+    not below -1, the argument list of a value constraint as `validValueArguments` leaves it), all
     initial destination values (one per argument) and every abstract command line, the evaluation
     returns normally only if the command line obeys every declared rule (`Obeys`: mandatory ∧
-    values ∧ cardinality ∧ excludes ∧ requires ∧ handler constraints).  The corollaries below state
-    each rule in words under the hypotheses that rule needs. -/
+    values ∧ cardinality ∧ excludes ∧ requires ∧ handler constraints, the value constraints differ
+    and disjoint included).  The corollaries below state each rule in words under the hypotheses
+    that rule needs. -/
 theorem C02_rules_sound (cfg : Cfg) (wf : cfg.WellFormed) (inits : List DVal)
     (hin : cfg.args.length ≤ inits.length) (us : List Use) (h : HState)
     (e : evalUses cfg (cfg.initState inits) us = .ok h) : Obeys cfg inits us :=
@@ -83,15 +84,72 @@ theorem C02_requires (cfg : Cfg) (hdis : Disjoint cfg.table)
 
 /-- Handler constraints: if the evaluation returns normally, then for every handler constraint —
     all-of: every listed argument is given by key; any-of: at most one key occurrence of a listed
-    argument; one-of: exactly one. -/
+    argument; one-of: exactly one.  (The value constraints differ / disjoint: `C02_value_constraints`.) -/
 theorem C02_handler_constraints (cfg : Cfg) (inits : List DVal)
     (hin : cfg.args.length ≤ inits.length) (us : List Use) (h : HState)
     (e : evalUses cfg (cfg.initState inits) us = .ok h) (g : GDef) (hg : g ∈ cfg.globals) :
     match g.kind with
     | .allOf => ∀ k ∈ g.keys, ∃ u ∈ us, u.ident = true ∧ Designates cfg k u.arg
     | .anyOf => (listedUses cfg g us).length ≤ 1
-    | .oneOf => (listedUses cfg g us).length = 1 :=
+    | .oneOf => (listedUses cfg g us).length = 1
+    | .differ => True
+    | .disjoint => True :=
   (local_rules_sound hin e).2.2 g hg
+
+/-- Value constraints (well-formed configuration: the listed keys are keys of defined arguments with
+    pairwise non-clashing keys, int or string arguments for differ, exactly two list arguments for
+    disjoint — what `Handler::validValueArguments` establishes, plus a comparable type): if the
+    evaluation returns normally, then
+    * differ: any two different listed arguments that were both given hold different values at the
+      end (`denote`: for an int / string argument the last value given, converted);
+    * disjoint: the two listed lists — initial content followed by all elements given, in whatever
+      order they were given — have no element in common. -/
+theorem C02_value_constraints (cfg : Cfg) (wf : cfg.WellFormed) (inits : List DVal)
+    (hin : cfg.args.length ≤ inits.length) (us : List Use) (h : HState)
+    (e : evalUses cfg (cfg.initState inits) us = .ok h) (g : GDef) (hg : g ∈ cfg.globals) :
+    (g.kind = .differ →
+      ∀ (k1 k2 : Key) (i j : Nat) (di dj : ArgDef) (vi vj : DVal), k1 ∈ g.keys → k2 ∈ g.keys →
+        cfg.args[i]? = some di → cfg.args[j]? = some dj → k1.eq di.key = true → k2.eq dj.key = true → i ≠ j →
+        inits[i]? = some vi → inits[j]? = some vj → (∃ u ∈ us, u.arg = i) → (∃ u ∈ us, u.arg = j) →
+        denote di vi (valsOf i us) ≠ denote dj vj (valsOf j us)) ∧
+    (g.kind = .disjoint →
+      ∀ (k1 k2 : Key) (i j : Nat) (di dj : ArgDef) (vi vj : DVal), k1 ∈ g.keys → k2 ∈ g.keys →
+        cfg.args[i]? = some di → cfg.args[j]? = some dj → k1.eq di.key = true → k2.eq dj.key = true → i ≠ j →
+        inits[i]? = some vi → inits[j]? = some vj →
+        ∀ x, x ∈ vecOf (denote di vi (valsOf i us)) → x ∉ vecOf (denote dj vj (valsOf j us))) :=
+  value_constraints_sound wf hin e g hg
+
+/-- The intersection test behind disjoint: `hasIntersectionUnsorted` (sorted copies, then the walk
+    of `std::set_intersection` that stops at the first common value) answers "true" exactly when the
+    two lists have a common element — whatever their order.  (At the pinned commit the vector adapter
+    handed the unsorted vectors to the walk: `-a 3,1 -b 1` was accepted; `fix:` 1ee8266.) -/
+theorem C02_disjoint_test (l1 l2 : List Int) :
+    hasIntersectionUnsorted l1 l2 = true ↔ ∃ x, x ∈ l1 ∧ x ∈ l2 :=
+  hasIntersectionUnsorted_iff l1 l2
+
+/-- Pattern check: if the evaluation returns normally, every value given to a string or int argument
+    (every element of a list value) matches — as a whole, `std::regex_match` — every pattern
+    attached to the argument (`Regex.Re.matches`, Model/Regex.lean). -/
+theorem C02_pattern (cfg : Cfg) (inits : List DVal) (us : List Use) (h : HState)
+    (e : evalUses cfg (cfg.initState inits) us = .ok h) (u : Use) (hu : u ∈ us) (d : ArgDef)
+    (hd : cfg.args[u.arg]? = some d) (r : Regex.Re) (hr : Check.pattern r ∈ d.checks) :
+    (d.kind = .str ∨ d.kind = .int → r.matches u.val = true) ∧
+    (d.kind = .vecInt → ∀ t ∈ splitSep d.sep u.val, r.matches t = true) := by
+  obtain ⟨d', hd', hok⟩ := values_sound e u hu
+  rw [hd] at hd'; cases hd'
+  have hrun : ∀ v, runChecks d.checks v = .ok () → r.matches v = true := by
+    intro v hv
+    have := runChecks_ok hv _ hr
+    simp only [Check.run, throwIf_eq_ok, Bool.not_eq_false'] at this
+    exact this
+  unfold ScalarValueOk at hok
+  constructor
+  · rintro (hk | hk) <;> rw [hk] at hok
+    · exact hrun _ hok
+    · exact hrun _ hok.1
+  · intro hk t ht
+    rw [hk] at hok
+    exact hrun _ (hok t ht).1
 
 /-- Values of a LevelCounter argument (whose rules are stateful and only approximated by
     `ScalarValueOk`): if the evaluation returns normally, the values given to it obey the
@@ -161,5 +219,42 @@ example :
     (evalUses RulesExample.cfgLevel (RulesExample.cfgLevel.initState [.level 0]) [⟨0, [], true⟩, ⟨0, [], true⟩]).isOk = true ∧
     (evalUses RulesExample.cfgLevel (RulesExample.cfgLevel.initState [.level 0]) [⟨0, [], true⟩, ⟨0, ['3'], true⟩]).isThrow = true := by
   decide
+
+/-! ### value constraints and the pattern check: non-vacuity
+
+  `RulesExample.cfgVal`: `-p,--primary` / `-b,--backup` (int) must differ; the lists `-i,--include` /
+  `-x,--exclude` must be disjoint; `-m,--name` (string) must match `[a-z]+[0-9]?`.
+  `runVal us` = `evalUses cfgVal (cfgVal.initState initsVal) us`. -/
+
+open CelmaVerif.ProgArgs.RulesExample in
+example : RulesExample.cfgVal.WellFormed ∧ RulesExample.cfgVal.args.length ≤ RulesExample.initsVal.length :=
+  ⟨cfgVal_wf, by decide⟩
+
+open CelmaVerif.ProgArgs.RulesExample in
+/-- the pattern of the example is inside the modelled subset -/
+example : (Regex.parse "[a-z]+[0-9]?".toList).isSome = true := by decide
+
+open CelmaVerif.ProgArgs.RulesExample in
+/-- accepted: `-p 1 -b 2 -i 3,1 -x 2,7 -m abc7`, also with `-b` alone (nothing to compare) -/
+example : (runVal [⟨0, "1".toList, true⟩, ⟨1, "2".toList, true⟩, ⟨2, "3,1".toList, true⟩, ⟨3, "2,7".toList, true⟩,
+    ⟨4, "abc7".toList, true⟩]).isOk = true ∧ (runVal [⟨1, "1".toList, true⟩]).isOk = true := by decide
+
+open CelmaVerif.ProgArgs.RulesExample in
+/-- rejected, differ: `-p 1 -b 1`, `-p 7 -b +7` (equal after conversion) -/
+example : (runVal [⟨0, "1".toList, true⟩, ⟨1, "1".toList, true⟩]).isThrow = true ∧
+    (runVal [⟨0, "7".toList, true⟩, ⟨1, "+7".toList, true⟩]).isThrow = true := by decide
+
+open CelmaVerif.ProgArgs.RulesExample in
+/-- rejected, disjoint: `-i 1,3 -x 2,3`, and the unsorted `-i 3,1 -x 1` / `-i 5 -x 7 -x 5` which the
+    pinned commit accepted -/
+example : (runVal [⟨2, "1,3".toList, true⟩, ⟨3, "2,3".toList, true⟩]).isThrow = true ∧
+    (runVal [⟨2, "3,1".toList, true⟩, ⟨3, "1".toList, true⟩]).isThrow = true ∧
+    (runVal [⟨2, "5".toList, true⟩, ⟨3, "7".toList, true⟩, ⟨3, "5".toList, true⟩]).isThrow = true := by decide
+
+open CelmaVerif.ProgArgs.RulesExample in
+/-- rejected, pattern: `-m Abc` (upper case), `-m abc77` (`regex_match` is on the whole value: a
+    matching prefix is not enough), `-m ""` -/
+example : (runVal [⟨4, "Abc".toList, true⟩]).isThrow = true ∧ (runVal [⟨4, "abc77".toList, true⟩]).isThrow = true ∧
+    (runVal [⟨4, [], true⟩]).isThrow = true := by decide
 
 end CelmaVerif.Props.C02
